@@ -313,6 +313,29 @@ def streamToks (st : Style) (width : Nat) (lines : List (List Tok)) : List Tok :
 
 def linefeedToks (lines : List (List Tok)) : List Tok := lines.flatMap fun l => l ++ [Tok.c0 10]
 
+/-! ### the code as it is before the D9 repair (correspondence only; no theorem is about these)
+
+  C07 and C14 do not depend on the trailing reset of blank lines, so their correspondence checks accept the code
+  either with or without the repair; C13 (whose property D9 breaks) compares with the repaired model only. -/
+
+def lineBytesUnrepaired (p : Placeholder) (m : Mode) (fmt : Fmt) (noEscape : Bool) (row : Nat) : Bytes :=
+  if row ≥ tableLen then
+    (if noEscape then [] else serialize [sgrReset]) ++ fmt.rowB row ++
+      ((List.range' p.startCol (p.endCol - p.startCol)).flatMap fun col => fmt.cellB col row ++ [32])
+  else lineBytes p m fmt noEscape row
+
+def toLinesUnrepaired (r : RawPlaceholder) (m : Mode) (fmt : Fmt) (noEscape : Bool) : Except PhErr (List Bytes) :=
+  match r.validate with
+  | none => .error .value
+  | some p =>
+    if p.startRow < tableLen ∧ p.startCol ≥ tableLen then .error .index
+    else .ok ((List.range' p.startRow (p.endRow - p.startRow)).map (lineBytesUnrepaired p m fmt noEscape))
+
+def toStreamUnrepaired (r : RawPlaceholder) (pos : Option (Nat × Nat)) (m : Mode) (fmt : Fmt) (save lf : Bool) : Except PhErr Bytes :=
+  match pos with
+  | some (px, py) => if lf then .error .value else (toLinesUnrepaired r m fmt false).map (streamAbs px py)
+  | none => (toLinesUnrepaired r m fmt false).map (streamAtCursor save lf (r.endCol - r.startCol).toNat)
+
 /-! ### the display path: `TupimageTerminal.display_only` for an integer id / a placeholder -/
 
 inductive FinalPos where
@@ -333,6 +356,18 @@ def finalCursorToks (cols rows : Nat) (fp : FinalPos) (lf : Bool) : Option (List
 
 /-- bytes on the display stream of `display_only(id, start_col=…, …, fewer_diacritics, background, abs_pos,
     final_cursor_pos, use_line_feeds)`; an error is reported whatever was written before it. -/
+def displayOnlyWith (stream : Except PhErr Bytes) (r : RawPlaceholder) (lf : Bool) (fp : FinalPos) : Except PhErr Bytes :=
+  match stream with
+  | .error e => .error e
+  | .ok b =>
+    match finalCursorToks (r.endCol - r.startCol).toNat (r.endRow - r.startRow).toNat fp lf with
+    | none => .error .value
+    | some t => .ok (b ++ serialize t)
+
+def displayOnlyUnrepaired (r : RawPlaceholder) (fewer : Bool) (bg : Background) (pos : Option (Nat × Nat)) (lf : Bool)
+    (fp : FinalPos) : Except PhErr Bytes :=
+  displayOnlyWith (toStreamUnrepaired r pos (displayMode fewer) (getFormatting bg) true lf) r lf fp
+
 def displayOnly (r : RawPlaceholder) (fewer : Bool) (bg : Background) (pos : Option (Nat × Nat)) (lf : Bool)
     (fp : FinalPos) : Except PhErr Bytes :=
   match toStream r pos (displayMode fewer) (getFormatting bg) true lf with
